@@ -270,11 +270,18 @@ def configs(tier):
 
 def main(tier, seed, only=None):
     from harness import l2run
+
+    def extra(rep):
+        from harness import c02_threads
+        c02_threads.part(rep, tier)
     return l2run.run('C02', tier, seed, configs(tier), [
         'no faults: deaths, time limits and failed sends are other '
-        'properties'], only)
+        'properties'], only, extra)
 
 
 def replay(rp):
+    if rp.get('harness') == 'c02-threads':
+        from harness import c02_threads
+        return c02_threads.replay(rp)
     from harness import l2run
     return l2run.replay('C02', rp, configs('thorough') + configs('quick'))
